@@ -37,16 +37,16 @@ def check(ctx):
     m = oc.build(ctx, "R06")
     dec = m.dec
     info = numbering_loop(ctx, m)
-    r06_1(ctx, m, info)
-    r06_2_4(ctx, m, info)
-    r06_3(ctx, m, info)
-    r06_4_caller(ctx, m)
-    r06_5(ctx, m)
-    r06_6(ctx)
-    r06_7(ctx, m)
-    r06_8(ctx, m)
-    r06_9(ctx, m)
-    r06_10(ctx, m)
+    ctx.run(r06_1, m, info)
+    ctx.run(r06_2_4, m, info)
+    ctx.run(r06_3, m, info)
+    ctx.run(r06_4_caller, m)
+    ctx.run(r06_5, m)
+    ctx.run(r06_6)
+    ctx.run(r06_7, m)
+    ctx.run(r06_8, m)
+    ctx.run(r06_9, m)
+    ctx.run(r06_10, m)
     ctx.not_decided += [
         "that articulation points / biconnected components / the DFS order are the true ones on every graph (C15)",
         "independence from set/dict iteration order inside biccs (hash randomisation) beyond the orientation fix-up",
@@ -54,8 +54,8 @@ def check(ctx):
     # mechanisms this property rests on (see shared.py): a change there is reported here as well
     from . import shared as _sh
 
-    _sh.graph_loader(ctx)
-    _sh.cli_layer(ctx, "gaftools.cli.order_gfa")
+    ctx.run(_sh.graph_loader)
+    ctx.run(_sh.cli_layer, "gaftools.cli.order_gfa")
 
 
 def numbering_loop(ctx, m):
